@@ -17,13 +17,23 @@ package network
 // a sound path: starts at cur, ends at tgt, consecutive levels are linked in the configured tree
 //@ spec soundPath(d *Driver, p []string, cur string, tgt string) bool := len(p) >= 1 && p[0] == cur && p[len(p)-1] == tgt && (forall i int :: 0 <= i && i < len(p) - 1 ==> linked(d, p[i], p[i+1]))
 
-// ASSUMED (unproved lemma, listed in evidence): the depth-first search returns a sound path of at least two levels
-// whenever current != target. Soundness needs an induction over the recursion with a visited list, completeness an
-// induction over the tree; neither is machine-checked here.
-//@ func (*Driver).buildPrivChangeMap
-//@   noverify
-//@   pure
-//@   ensures current != target ==> len(result) >= 2 && soundPath(d, result, current, target)
+// G(d, a, b): the privilege graph has an edge a -> b; chainG: consecutive levels of a list are joined by edges
+//@ spec G(d *Driver, a string, b string) bool := get(d.privGraph, a) != nil && has(get(d.privGraph, a), b)
+//@ spec chainG(d *Driver, p []string) bool := forall i int :: 0 <= i && i < len(p) - 1 ==> G(d, p[i], p[i+1])
+// graphOK: every edge of the graph joins a level and its previous level (what buildPrivGraph builds from a well-formed
+// level map; object invariant of a network driver after UpdatePrivileges)
+//@ spec graphOK(d *Driver) bool := forall a string, b string :: {G(d, a, b)} G(d, a, b) ==> linked(d, a, b)
+// The depth-first search. PROVED: whatever it returns is a walk along graph edges that extends the steps taken so far
+// and ends at the target. ASSUMED (listed in evidence): the top-level search finds a path whenever current != target
+// (completeness: needs the graph to be a connected tree containing both levels; an induction over the tree).
+//@ func (*Driver).buildPrivChangeMap [C04]
+//@   modifies alloc()
+//@   requires steps != nil ==> alive(steps) && len(val(steps)) >= 1 && chainG(d, val(steps)) && G(d, val(steps)[len(val(steps)) - 1], current)
+//@   ensures #what-the-search-returns-is-a-walk-along-graph-edges-to-the-target len(result) > 0 ==> chainG(d, result) && result[len(result) - 1] == target
+//@   ensures #it-extends-the-steps-taken-so-far len(result) > 0 ==> len(result) >= (steps == nil ? 1 : len(val(steps)) + 1) && result[(steps == nil ? 0 : len(val(steps)))] == current && (steps != nil ==> (forall i int :: 0 <= i && i < len(val(steps)) ==> result[i] == val(steps)[i]))
+//@   assumed ensures steps == nil && current != target ==> len(result) >= 2
+//@   loop 1 invariant len(workingSteps) >= 1 && chainG(d, workingSteps) && workingSteps[len(workingSteps) - 1] == current
+//@   loop 1 invariant (steps == nil ==> len(workingSteps) == 1) && (steps != nil ==> len(workingSteps) == len(val(steps)) + 1 && (forall i int :: 0 <= i && i < len(val(steps)) ==> workingSteps[i] == val(steps)[i]))
 
 // fits(d, n, prompt): level n's pattern matches the prompt and none of its not-contains strings occurs in it
 //@ spec fits(d *Driver, n string, p string) bool := has(d.PrivilegeLevels, n) && reMatch(get(d.PrivilegeLevels, n).patternRe, p) && !(exists i int :: 0 <= i && i < len(get(d.PrivilegeLevels, n).NotContains) && contains(p, get(d.PrivilegeLevels, n).NotContains[i]))
@@ -44,7 +54,7 @@ package network
 //@ ghost acquired string
 
 //@ func (*Driver).processAcquirePriv [C04]
-//@   requires has(d.PrivilegeLevels, target)
+//@   requires has(d.PrivilegeLevels, target) && graphOK(d)
 //@   modifies d.CurrentPriv, alloc()
 //@   ensures #nothing-on-error err != nil ==> action == "" && nextPriv == ""
 //@   ensures #at-target-no-action err == nil && action == "noAction" ==> d.CurrentPriv == target && nextPriv == target
@@ -88,33 +98,33 @@ package network
 //@   loop 1 invariant rangeindex == -1 ==> o.PrivilegeLevel == ""
 
 //@ func (*Driver).AcquirePriv [C04 C05]
-//@   requires RI(d.Channel.Q) && d.Channel.PromptSearchDepth >= 0
+//@   requires RI(d.Channel.Q) && d.Channel.PromptSearchDepth >= 0 && graphOK(d)
 //@   ensures RI(d.Channel.Q)
 //@   modifies wire, rd, sent, quiet, echoed, optlog, acquired, d.CurrentPriv, alloc(), all(util.Queue.queue), all(util.Queue.depth), chans()
 //@   at return set acquired = (result == nil ? target : "")
 //@   ensures #unknown-target-refused-before-anything-is-sent !has(d.PrivilegeLevels, target) ==> isErr(result, util.ErrPrivilegeError) && sent == old(sent) && wire == old(wire)
 //@   ensures #success-means-level-recorded result == nil ==> d.CurrentPriv == target && acquired == target
 //@   ensures #failure-recorded result != nil ==> acquired == ""
-//@   loop 1 invariant 0 <= count && count <= 2 * len(d.PrivilegeLevels) && has(d.PrivilegeLevels, target) && RI(d.Channel.Q)
+//@   loop 1 invariant 0 <= count && count <= 2 * len(d.PrivilegeLevels) && has(d.PrivilegeLevels, target) && RI(d.Channel.Q) && graphOK(d)
 //@   loop 1 decreases 2 * len(d.PrivilegeLevels) + 1 - count
 
 //@ func (*Driver).SendCommand [C04 C05]
-//@   requires d.DefaultDesiredPriv != "" && RI(d.Channel.Q) && d.Channel.PromptSearchDepth >= 0
+//@   requires d.DefaultDesiredPriv != "" && RI(d.Channel.Q) && d.Channel.PromptSearchDepth >= 0 && graphOK(d)
 //@   ensures RI(d.Channel.Q)
 //@   at call! SendCommand#1 assert #commands-run-at-the-default-level old(d.CurrentPriv) == d.DefaultDesiredPriv || acquired == d.DefaultDesiredPriv
 //@   ensures #implicit-privilege-failure-is-a-privilege-error old(d.CurrentPriv) != d.DefaultDesiredPriv && acquired != d.DefaultDesiredPriv ==> isErr(result.1, util.ErrPrivilegeError) && result.0 == nil
 
 //@ func (*Driver).SendCommands [C04 C05]
-//@   requires d.DefaultDesiredPriv != "" && RI(d.Channel.Q) && d.Channel.PromptSearchDepth >= 0
+//@   requires d.DefaultDesiredPriv != "" && RI(d.Channel.Q) && d.Channel.PromptSearchDepth >= 0 && graphOK(d)
 //@   at call! SendCommands#1 assert #commands-run-at-the-default-level old(d.CurrentPriv) == d.DefaultDesiredPriv || acquired == d.DefaultDesiredPriv
 //@   ensures #implicit-privilege-failure-is-a-privilege-error old(d.CurrentPriv) != d.DefaultDesiredPriv && acquired != d.DefaultDesiredPriv ==> isErr(result.1, util.ErrPrivilegeError) && result.0 == nil
 
 //@ func (*Driver).SendCommandsFromFile [C04]
-//@   requires d.DefaultDesiredPriv != "" && RI(d.Channel.Q) && d.Channel.PromptSearchDepth >= 0
+//@   requires d.DefaultDesiredPriv != "" && RI(d.Channel.Q) && d.Channel.PromptSearchDepth >= 0 && graphOK(d)
 //@   at call! SendCommandsFromFile#1 assert #commands-run-at-the-default-level old(d.CurrentPriv) == d.DefaultDesiredPriv || acquired == d.DefaultDesiredPriv
 
 //@ func (*Driver).SendConfigs [C04 C13]
-//@   requires RI(d.Channel.Q) && d.Channel.PromptSearchDepth >= 0
+//@   requires RI(d.Channel.Q) && d.Channel.PromptSearchDepth >= 0 && graphOK(d)
 //@   at call! SendCommands#1 assert [C13] #the-config-lines-go-to-the-generic-driver-unchanged arg0 === configs && arg1 === opts
 //@   ensures [C13] #nil-on-error result.1 != nil ==> result.0 == nil
 //@   ensures [C13] #at-least-one-response result.1 == nil && len(configs) >= 1 ==> 1 <= len(result.0.Responses) && len(result.0.Responses) <= len(configs)
@@ -123,7 +133,7 @@ package network
 
 // ---- C13: a collapsed config response reports what the aggregate reports -----------------------------------------------------
 //@ func (*Driver).SendConfig [C13]
-//@   requires RI(d.Channel.Q) && d.Channel.PromptSearchDepth >= 0
+//@   requires RI(d.Channel.Q) && d.Channel.PromptSearchDepth >= 0 && graphOK(d)
 //@   at call! SendConfigs#1 assert #the-lines-of-the-config-are-sent-in-order joinS(arg0, "\n") == config && arg1 === opts
 //@   at return assert #the-collapsed-response-is-failed-exactly-when-the-aggregate-is result.1 == nil ==> result.0 == r && r.Failed == m.Failed
 //@   at return assert #its-result-is-the-members-results-joined result.1 == nil ==> r.Result == joinS(rOutputs, "\n") && len(rOutputs) == len(m.Responses)
